@@ -117,48 +117,58 @@ Proof. vm_compute. repeat split; reflexivity. Qed.
    itself assigned keeps its value, and no buffer that existed is ever written. *)
 Theorem C04_views_unobservable : forall p st k,
   env_ok st -> ~ In k (map target p) ->
-  value_of (exec_all amend_clones_first st p) k = value_of st k.
+  value_of (exec_all amend_clones_first no_verb_stores_into_operands st p) k = value_of st k.
 Proof.
-  exact (eq_ind_r (fun f => forall p st k, env_ok st -> ~ In k (map target p) ->
-            value_of (exec_all f st p) k = value_of st k)
-           views_unobservable (eq_refl : amend_clones_first = true)).
+  exact (eq_ind_r (fun f => forall p st k, env_ok st -> ~ In k (map target p) -> value_of (exec_all f no_verb_stores_into_operands st p) k = value_of st k)
+           (eq_ind_r (fun g => forall p st k, env_ok st -> ~ In k (map target p) -> value_of (exec_all true g st p) k = value_of st k) views_unobservable (eq_refl : no_verb_stores_into_operands = true))
+           (eq_refl : amend_clones_first = true)).
 Qed.
 Print Assumptions C04_views_unobservable.
 
 Theorem C04_buffers_immutable : forall p st l,
   env_ok st -> (l < length (hp st))%nat ->
-  hget (hp (exec_all amend_clones_first st p)) l = hget (hp st) l.
+  hget (hp (exec_all amend_clones_first no_verb_stores_into_operands st p)) l = hget (hp st) l.
 Proof.
-  exact (eq_ind_r (fun f => forall p st l, env_ok st -> (l < length (hp st))%nat ->
-            hget (hp (exec_all f st p)) l = hget (hp st) l)
-           buffers_immutable (eq_refl : amend_clones_first = true)).
+  exact (eq_ind_r (fun f => forall p st l, env_ok st -> (l < length (hp st))%nat -> hget (hp (exec_all f no_verb_stores_into_operands st p)) l = hget (hp st) l)
+           (eq_ind_r (fun g => forall p st l, env_ok st -> (l < length (hp st))%nat -> hget (hp (exec_all true g st p)) l = hget (hp st) l) buffers_immutable (eq_refl : no_verb_stores_into_operands = true))
+           (eq_refl : amend_clones_first = true)).
 Qed.
 Print Assumptions C04_buffers_immutable.
 
 (* T4.views, full strength — values behave as immutable: after ANY statement sequence (literals,
-   drop / take / reverse views, views of views, amends of views, aliases) EVERY variable holds
+   drop / take / reverse views, views of views, amends of views, aliases, and any other verb as a function of
+   its operand's value — given the regenerated fact that no verb implementation stores into its parameters) EVERY variable holds
    exactly the value that the same program computes over a store of immutable lists. *)
 Theorem C04_values_are_immutable : forall p k,
-  value_of (exec_all amend_clones_first (mk_hstate [] []) p) k = pget k (pure_exec_all [] p).
+  value_of (exec_all amend_clones_first no_verb_stores_into_operands (mk_hstate [] []) p) k = pget k (pure_exec_all [] p).
 Proof.
-  exact (eq_ind_r (fun f => forall p k, value_of (exec_all f (mk_hstate [] []) p) k = pget k (pure_exec_all [] p))
-           heap_is_immutable_store (eq_refl : amend_clones_first = true)).
+  exact (eq_ind_r (fun f => forall p k, value_of (exec_all f no_verb_stores_into_operands (mk_hstate [] []) p) k = pget k (pure_exec_all [] p))
+           (eq_ind_r (fun g => forall p k, value_of (exec_all true g (mk_hstate [] []) p) k = pget k (pure_exec_all [] p)) heap_is_immutable_store (eq_refl : no_verb_stores_into_operands = true))
+           (eq_refl : amend_clones_first = true)).
 Qed.
 Print Assumptions C04_values_are_immutable.
+
+(* a verb that stores into its operand (seeded change C04-5: reshape substituting the -1 of its shape in place) is observable:
+   s::[-1 2]; d::s:^src leaves s changed *)
+Theorem C04_values_refuted_with_impure_verb :
+  exists p k, value_of (exec_all true false (mk_hstate [] []) p) k <> pget k (pure_exec_all [] p).
+Proof.
+  exists [SLit 1 [-1; 2]; SOp 2 (OOther (map (fun z => if z <? 0 then 5 else z))) 1], 1. vm_compute. discriminate.
+Qed.
 
 (* an amend that writes through its operand is observable through every view *)
 Theorem C04_views_refuted_without_clone :
   exists p k, ~ In k (map target p) /\
-    let st := exec_all false (mk_hstate [] []) [SLit 1 [1; 2; 3]] in
-    value_of (exec_all false st p) k <> value_of st k.
+    let st := exec_all false true (mk_hstate [] []) [SLit 1 [1; 2; 3]] in
+    value_of (exec_all false true st p) k <> value_of st k.
 Proof.
   exists [SOp 2 (ODrop 1) 1; SOp 3 (OAmend 0 9) 2], 1.
   split; [cbv; intros [H|[H|H]]; try discriminate H; exact H|]. vm_compute. discriminate.
 Qed.
 
 Example C04_views_example :
-  let st := exec_all true (mk_hstate [] []) [SLit 1 [1; 2; 3; 4]] in
-  let st' := exec_all true st [SOp 2 (ODrop 1) 1; SOp 3 ORev 2; SOp 4 (OAmend 0 9) 3; SCopy 5 1; SOp 5 (OAmend 1 7) 5] in
+  let st := exec_all true true (mk_hstate [] []) [SLit 1 [1; 2; 3; 4]] in
+  let st' := exec_all true true st [SOp 2 (ODrop 1) 1; SOp 3 ORev 2; SOp 4 (OAmend 0 9) 3; SCopy 5 1; SOp 5 (OAmend 1 7) 5] in
   env_ok st /\ value_of st' 1 = Some [1; 2; 3; 4] /\ value_of st' 2 = Some [2; 3; 4] /\
   value_of st' 3 = Some [4; 3; 2] /\ value_of st' 4 = Some [9; 3; 2] /\ value_of st' 5 = Some [1; 7; 3; 4].
 Proof.
